@@ -834,6 +834,72 @@ func (c *concCtx) scenarioClosedMeanwhile() {
 	c.r.emit("scenario", "scenario closed_meanwhile", "ok")
 }
 
+// scenarioReAddBehindReader: C07 — the watched file is replaced (renamed away, a new file under the old
+// name); the reader has read IN_MOVE_SELF and waits for the bookkeeping mutex, which is held (as by a
+// long-running call) long enough for the runtime to hand the mutex from waiter to waiter; a re-Add of the
+// path queues behind the reader. In whichever order the two critical sections run, the path must end up
+// listed and the new file's changes must be reported: the calls are consistent with a sequential order
+// only if each section is atomic.
+func (c *concCtx) scenarioReAddBehindReader() {
+	for round := 0; round < 12; round++ {
+		dir, err := os.MkdirTemp("", "fsnverif-readd")
+		check(err)
+		p := filepath.Join(dir, "p")
+		check(os.WriteFile(p, nil, 0o644))
+		w, err := newBW(64)
+		check(err)
+		check(w.Add(p))
+		release := fsnotify.VerifHoldMu(w)
+		os.Rename(p, p+".old")
+		check(os.WriteFile(p, nil, 0o644))
+		time.Sleep(5 * time.Millisecond) // the reader waits in front of handleEvent
+		done := make(chan error, 1)
+		go func() { done <- w.Add(p) }()
+		time.Sleep(5 * time.Millisecond) // Add waits behind it; both have waited long enough for hand-off mode
+		// barge once: the woken reader finds the mutex taken again after waiting > 1 ms, which switches
+		// sync.Mutex to hand-off (starvation) mode: from now on every Unlock passes the mutex to the next waiter
+		release()
+		release2 := fsnotify.VerifHoldMu(w)
+		time.Sleep(2 * time.Millisecond)
+		release2()
+		var addErr error
+		if !c.within("C07", "C07:hang", "re-add behind the reader: Add did not return", func() { addErr = <-done }) {
+			os.RemoveAll(dir)
+			return
+		}
+		time.Sleep(20 * time.Millisecond)
+		listed := false
+		for _, x := range w.WatchList() {
+			if x == p {
+				listed = true
+			}
+		}
+		os.WriteFile(p, []byte("x"), 0o644)
+		gotWrite := false
+		deadline := time.After(time.Second)
+	loop:
+		for {
+			select {
+			case e := <-w.Events:
+				if e.Name == p && e.Has(fsnotify.Write) {
+					gotWrite = true
+					break loop
+				}
+			case <-w.Errors:
+			case <-deadline:
+				break loop
+			}
+		}
+		if addErr == nil && (!listed || !gotWrite) {
+			c.report("C07", "C07:readd-racing-reader-lost", fmt.Sprintf("Add(p) of a replaced file returned nil while the reader was handling the old file's IN_MOVE_SELF: afterwards WatchList lists p = %v, a write to p is reported = %v — no sequential order of the re-Add and the reader's section gives that", listed, gotWrite),
+				map[string]interface{}{"history": []string{"Add(p)", "hold the mutex", "rename p p.old; create p", "go Add(p)", "release", "WatchList; write p"}})
+		}
+		w.Close()
+		os.RemoveAll(dir)
+	}
+	c.r.emit("scenario", "scenario readd_behind_reader", "ok")
+}
+
 func (c *concCtx) scenarioStaleHandle() {
 	dir, err := os.MkdirTemp("", "fsnverif-stale")
 	check(err)
@@ -1139,6 +1205,7 @@ func runConc(r *rec, g *rng, tier, what, out string, extra map[string]interface{
 		}
 	}
 	if want("C07") {
+		c.scenarioReAddBehindReader()
 		n := 150
 		if thorough {
 			n = 3000
